@@ -177,7 +177,7 @@ func (t *tree) beginTag() ast.Node {
 	case itemNil, itemSpace, itemTab, itemNewline, itemCarriageReturn, itemLeftBrace, itemRightBrace:
 		t.expect(itemRightDelim, "special char")
 		return &ast.RawTextNode{token.pos, []byte(specialChars[token.typ])}
-	case itemIdent, itemDollarIdent, itemNull, itemBool, itemFloat, itemInteger, itemString, itemNegate, itemNot, itemLeftBracket:
+	case itemIdent, itemDollarIdent, itemNull, itemBool, itemFloat, itemInteger, itemString, itemNegate, itemNot, itemLeftBracket, itemLeftParen:
 		// print is implicit, so the tag may also begin with any value type or unary op.
 		t.backup()
 		fallthrough
